@@ -27,7 +27,7 @@ CHECKS['C15'] = {
              'error rates); per-step relation acc[:|acc|-ceil(o/2)] ++ t[floor(o/2):], length = sum of parts - sum of overlaps, one logits row per '
              'character; o = 0 is plain concatenation (61 obligations).'),
     'note': ('Trusted: pyvc generator; strings as z3 Seq of opaque symbols, logits as z3 Seq of opaque rows (np.concatenate axis 0 = Concat, row '
-             'slicing = SubSeq); callee contract of levenshtein_distance (result >= 0) proved under C13. Window splitting in process_lines is not under contract.'),
+             'slicing = SubSeq); callee contract of levenshtein_distance (result >= 0) proved under C13. Window splitting in process_lines is not under contract: bounded only (split-and-stitch: the real process_lines of a transformer-type stub engine on 236 tuples of painted lines, every line must be stitched from the windows of its own text).'),
 }
 
 CHECKS['C19'] = {
